@@ -8,10 +8,21 @@ Definition harm_type (function_types : list string) : string :=
 
 Definition nl2 : string := String (byte 10) (String (byte 10) EmptyString).
 
+(* gaussian94lib tolerates no blank line after the header, but the data starts on a line of its own:
+   `if not header_str.endswith('\n'): header_str += '\n'` *)
+Definition nl1h : string := String (byte 10) EmptyString.
+Fixpoint ends_with_nl (s : string) : bool :=
+  match s with
+  | EmptyString => false
+  | String c EmptyString => beq c 10
+  | String _ t => ends_with_nl t
+  end.
+Definition g94lib_sep (hs : string) : string := if ends_with_nl hs then "" else nl1h.
+
 (* body = what the writer function returned *)
 Definition assemble (fmt : string) (w : writer) (function_types : list string) (body : string) (header : option string) : string :=
   let r1 := match header, w_comment w with
-            | Some h, Some c => if String.eqb fmt "gaussian94lib" then header_comment c h +++ body
+            | Some h, Some c => if String.eqb fmt "gaussian94lib" then header_comment c h +++ g94lib_sep (header_comment c h) +++ body
                                 else header_comment c h +++ nl2 +++ body
             | _, _ => body
             end in
